@@ -376,8 +376,14 @@ def run(M, rep, tier, only=None):
             for e in p.events:
                 if e.kind == "heap" and e.recv is not None and e.recv.t == ("self",) and len(e.stack) <= 1:
                     stores = e
-        rep.check(R6, key, stores is None, "%s stores to self.%s: container state outside HDF5" % (
-            key, stores.key.t[1] if stores else ""), site=stores.site if stores else None)
+                # ... or fills a table that hangs off the container / its file (a lookup cache): same thing under another roof
+                if e.kind == "local" and e.op in ("setitem", "dict.setdefault", "dict.update") and e.recv is not None and \
+                        any(x == ("self",) for x in subterms(e.recv.t)) and e.args and \
+                        any(x and x[0] in ("rd", "lres", "inst", "mcall") for a_ in e.args for x in subterms(a_.t)):
+                    stores = e
+        rep.check(R6, key, stores is None, "%s stores to %s: container state outside HDF5 (a later lookup answers from memory, not from "
+                  "the file)" % (key, ("self.%s" % stores.key.t[1]) if stores is not None and stores.kind == "heap" else
+                                 (show(stores.recv.t)[:60] if stores is not None else "")), site=stores.site if stores else None)
 
     # ---- R10 (shared with C04.R3): removing a role link must not take the entity itself out of its parent
     R10 = rep.rule("C02.R10", "removing an optional link (metadata, dimension link, ...) never removes the entity that carried it", floor=9,
